@@ -95,6 +95,84 @@ def register(ex):
                             return "true"
         return None
 
+    def depot_on_visit():
+        """`current_depot = torch.where(COND, current_node, current_depot)`: COND is `back_flag` (as coded: false) or the
+        comparison `current_node < num_depot` (intended semantics: true)"""
+        fn = func(D, "MDCPDPEnv._step")
+        if fn is None:
+            return None
+        hits = []
+        for n in ast.walk(fn):
+            if (isinstance(n, ast.Assign) and len(n.targets) == 1 and isinstance(n.targets[0], ast.Name)
+                    and n.targets[0].id == "current_depot" and isinstance(n.value, ast.Call)
+                    and ex.norm(n.value.func) == "torch.where" and len(n.value.args) == 3
+                    and ex.norm(n.value.args[1]) == "current_node" and ex.norm(n.value.args[2]) == "current_depot"):
+                hits.append(ex.norm(n.value.args[0]))
+        if len(hits) != 1:
+            return None
+        return {"back_flag": "false", "current_node<num_depot": "true", "(current_node<num_depot)": "true"}.get(hits[0])
+
+    def pd_div():
+        """k in `pd_split_idx = num_loc // k + num_depot`"""
+        fn = func(D, "MDCPDPEnv._step")
+        if fn is None:
+            return None
+        for n in ast.walk(fn):
+            if (isinstance(n, ast.Assign) and len(n.targets) == 1 and isinstance(n.targets[0], ast.Name)
+                    and n.targets[0].id == "pd_split_idx"):
+                v = n.value
+                if (isinstance(v, ast.BinOp) and isinstance(v.op, ast.Add) and ex.norm(v.right) == "num_depot"
+                        and isinstance(v.left, ast.BinOp) and isinstance(v.left.op, ast.FloorDiv)
+                        and ex.norm(v.left.left) == "num_loc" and isinstance(v.left.right, ast.Constant)
+                        and isinstance(v.left.right.value, int)):
+                    return str(v.left.right.value)
+        return None
+
+    def carry_cmp(which, nth, of):
+        """operators of `current_carry += (...)` (AugAssign Add) / `current_carry -= (...)` (AugAssign Sub)"""
+        def run():
+            fn = func(D, "MDCPDPEnv._step")
+            if fn is None:
+                return None
+            vals = [n.value for n in ast.walk(fn) if isinstance(n, ast.AugAssign) and isinstance(n.target, ast.Name)
+                    and n.target.id == "current_carry" and isinstance(n.op, which)]
+            if len(vals) != 1:
+                return None
+            hits = compares(vals[0])
+            return "." + ex.CMP[type(hits[nth].ops[0])] if len(hits) == of else None
+        return run
+
+    def depot_leg_cmp(nth):
+        """operators of the FIRST `current_step_length = torch.where(A & B, 0, current_step_length)` (the leg between two depots)"""
+        def run():
+            fn = func(D, "MDCPDPEnv._step")
+            if fn is None:
+                return None
+            vals = [n for n in ast.walk(fn) if isinstance(n, ast.Assign) and len(n.targets) == 1
+                    and isinstance(n.targets[0], ast.Name) and n.targets[0].id == "current_step_length"
+                    and isinstance(n.value, ast.Call) and ex.norm(n.value.func) == "torch.where"]
+            blocks = [b for b in ast.walk(fn) if isinstance(b, ast.If) and "problem_mode" in ex.norm(b.test)]
+            inside = {id(x) for b in blocks for st in b.body for x in ast.walk(st)}
+            vals = sorted([n for n in vals if id(n) not in inside], key=lambda n: n.lineno)
+            if len(vals) != 1:
+                return None
+            hits = compares(vals[0].value.args[0])
+            return "." + ex.CMP[type(hits[nth].ops[0])] if len(hits) == 2 else None
+        return run
+
+    ex.probe("mdcpdpPdDiv", "Nat", "2", "mdcpdp/env.py:MDCPDPEnv._step  `pd_split_idx = num_loc // 2 + num_depot`", pd_div)
+    ex.probe("mdcpdpPickLtCmp", "Cmp", ".lt", "mdcpdp/env.py:MDCPDPEnv._step  `current_carry += (current_node < pd_split_idx) & …`",
+             carry_cmp(ast.Add, 0, 2))
+    ex.probe("mdcpdpPickGeCmp", "Cmp", ".ge", "mdcpdp/env.py:MDCPDPEnv._step  `current_carry += … & (current_node >= num_depot)`",
+             carry_cmp(ast.Add, 1, 2))
+    ex.probe("mdcpdpDelivGeCmp", "Cmp", ".ge", "mdcpdp/env.py:MDCPDPEnv._step  `current_carry -= (current_node >= pd_split_idx)`",
+             carry_cmp(ast.Sub, 0, 1))
+    ex.probe("mdcpdpLegToCmp", "Cmp", ".lt", "mdcpdp/env.py:MDCPDPEnv._step  leg between two depots: `(current_node < num_depot) & …` → 0",
+             depot_leg_cmp(0))
+    ex.probe("mdcpdpLegFromCmp", "Cmp", ".lt", "mdcpdp/env.py:MDCPDPEnv._step  leg between two depots: `… & (td['current_node'] < num_depot)` → 0",
+             depot_leg_cmp(1))
+    ex.probe("mdcpdpDepotOnVisit", "Bool", "false", "mdcpdp/env.py:MDCPDPEnv._step  `current_depot = torch.where(back_flag, …)` (true: `current_node < num_depot`)",
+             depot_on_visit)
     ex.probe("mtspAgentCmp", "Cmp", ".lt", "mtsp/env.py:MTSPEnv._step  `td['agent_idx'] < td['num_agents'] - 1`",
              ex.cmp_probe(M, "MTSPEnv._step", "td['agent_idx']", "td['num_agents'] - 1"))
     ex.probe("mtspAgentIncCmp", "Cmp", ".eq", "mtsp/env.py:MTSPEnv._step  `agent_idx + (current_node == 0).long()`",
